@@ -49,6 +49,18 @@ def freeze(st):
     return tuple(sorted(st.items()))
 
 
+_kp_cache = {}
+
+
+def kp_of(k):
+    """parsed form of a place key (cached: keys are a small set of strings)"""
+    v = _kp_cache.get(k)
+    if v is None:
+        v = json.loads(k)
+        _kp_cache[k] = v
+    return v
+
+
 def _proj_ok(e):
     return isinstance(e, list) and e[0] in ('f', 'd')
 
@@ -148,7 +160,7 @@ class Interp:
         """a write to (normalised) place pl invalidates tracked keys overlapping it"""
         dead = []
         for k in st:
-            kp = json.loads(k)
+            kp = kp_of(k)
             n = min(len(kp), len(pl))
             if kp[:n] == pl[:n]:
                 dead.append(k)
@@ -171,7 +183,7 @@ class Interp:
         """a callee received &mut pl: everything at or below pl may change"""
         dead = []
         for k in st:
-            kp = json.loads(k)
+            kp = kp_of(k)
             if len(kp) >= len(pl) and kp[:len(pl)] == pl:
                 dead.append(k)
         self._drop(st, dead)
@@ -208,7 +220,7 @@ class Interp:
             return
         n = len(src)
         for k, v in snapshot.items():
-            kp = json.loads(k)
+            kp = kp_of(k)
             if len(kp) > n and kp[:n] == src:
                 nk = dst + kp[n:]
                 if self.trackable(nk):
@@ -777,7 +789,7 @@ class Interp:
         """what survives from one activation of a &mut self method to the next: *self fields"""
         out = {}
         for k, v in st.items():
-            kp = json.loads(k)
+            kp = kp_of(k)
             if isinstance(kp[0], str):
                 out[k] = v
                 continue
